@@ -134,15 +134,15 @@ def run(ctx):
     # metrics mode on the classes the four fixed templates never reach (tools/specgen_hw.py): cascades over shared inputs
     # whose Einsums bind the SAME components with per-Einsum parameters, partitioned (interleaved) outputs, other rank
     # names; and the plain populations of C02/C03/C01 wrapped in a small architecture
-    items += [specgen_hw.gen_cascade(rng) for _ in range(230 if q else 1600)]
-    for gen, n in ((popgen.shape, 120 if q else 800), (popgen.occupancy, 60 if q else 400), (popgen.plain, 40 if q else 300)):
+    items += [specgen_hw.gen_cascade(rng) for _ in range(190 if q else 1000)]
+    for gen, n in ((popgen.shape, 100 if q else 500), (popgen.occupancy, 40 if q else 250), (popgen.plain, 30 if q else 150)):
         for it in gen(rng, n):
             w = specgen_hw.wrap_single(rng, it)
             if w is not None:
                 items.append(w)
     # compiled only (both static side conditions below are evaluated on them; no execution)
-    static_only = [specgen_hw.gen_cascade(rng) for _ in range(500 if q else 4000)]
-    for it in popgen.shape(rng, 300 if q else 2500):
+    static_only = [specgen_hw.gen_cascade(rng) for _ in range(250 if q else 3000)]
+    for it in popgen.shape(rng, 100 if q else 1500):
         w = specgen_hw.wrap_single(rng, it)
         if w is not None:
             static_only.append(w)
